@@ -109,7 +109,9 @@ func (Record).MarshalText
     (forall k in 0..len(addrText(rec.Addr)): data[k] == addrText(rec.Addr)[k])
   ensures then_a_space: len(rec.Names) > 0 ==> len(data) > len(addrText(rec.Addr)) && data[len(addrText(rec.Addr))] == ' '
   loop 0
-    invariant safe_sum: 0 <= namesLen && namesLen <= (rangeindex + 1) * 1000000001
+    // (only an upper bound is needed - the sum cannot overflow -, so the
+    // bound leaves room for where the count of separators is added)
+    invariant safe_sum: 0 <= namesLen && namesLen <= (rangeindex + 1) * 1000000001 + len(rec.Names)
   loop 1
     invariant own_buffer: fresh(data) && off(data) == 0
     invariant long_enough: len(data) >= len(addrText(rec.Addr)) + (rangeindex >= 0 ? 1 : 0) &&
